@@ -34,6 +34,9 @@ from functools import lru_cache
 @lru_cache(maxsize=4)
 def read_table(path):
     return np.load(path)
+@lru_cache(maxsize=None)
+def points(n):
+    return np.random.random((n, 3))
 class Shared:
     _poly = None
     def __init__(self, n):
@@ -118,6 +121,13 @@ def analyse_tree(tree: ast.Module, relpath: str):
             problems.append(("stale", f"{relpath}:{fn.name}", reads[0], f"`{fn.name}` is memoised by its arguments (a path) but its result is the CONTENT "
                              "of a file: after the file is rewritten the stale content is returned, and every caller receives the same "
                              "mutable object"))
+        elif any(isinstance(c, ast.Call) and (src(c.func).startswith(("np.random.", "numpy.random.", "random.")) or
+                                             src(c.func).split(".")[-1] in ("random_sample", "default_rng")) for c in ast.walk(fn)):
+            rc_ = [c for c in ast.walk(fn) if isinstance(c, ast.Call) and (src(c.func).startswith(("np.random.", "numpy.random.", "random.")) or
+                                                                        src(c.func).split(".")[-1] in ("random_sample", "default_rng"))][0]
+            problems.append(("rng", f"{relpath}:{fn.name}", rc_, f"`{fn.name}` is memoised by its arguments but draws from the global random generator: "
+                             "its result depends on the generator state (the seed set by the caller) which the memo key does not contain, so "
+                             "callers that seed differently receive each other's points"))
         elif any(isinstance(n_, ast.Attribute) and isinstance(n_.value, ast.Name) and n_.value.id == "self" for n_ in ast.walk(fn)):
             problems.append(("state", f"{relpath}:{fn.name}", fn.body[0], f"`{fn.name}` is memoised per argument tuple (self is hashed by identity) "
                              "but reads object state: a later change of that state is not seen"))
@@ -281,7 +291,7 @@ def check_caches(ctx, repo: Repo, pid: str, module_names: List[str]):
     # positive control
     ctl_stores, ctl_problems = analyse_tree(ast.parse(CONTROL), "<control>")
     kinds = {p[0] for p in ctl_problems}
-    if not ({"key", "lossy", "mutate", "stale", "classstate"} <= kinds) or len(ctl_stores) < 4:
+    if not ({"key", "lossy", "mutate", "stale", "classstate", "rng"} <= kinds) or len(ctl_stores) < 5:
         ctx.inconclusive("CACHE", f"{pid}.cache.control", "positive control of the cache rule did not match", "<control>",
                          witness=f"stores={len(ctl_stores)}, kinds={sorted(kinds)}")
         return
